@@ -371,7 +371,7 @@ func main() {
 	bf := bs.Func("buildTarget")
 	out.Def("buildTargetOrder", "List String", xlib.LeanStrList(callsInOrder(bs, bf.Body,
 		set("needsBuilding", "buildFilegroup", "retrieveArtifacts", "build", "StoreTargetMetadata", "moveOutputs", "calculateAndCheckRuleHash", "storeInCache", "writeRuleHash"))))
-	checkErrReturns, fgInsideChanged := false, false
+	checkErrReturns, fgInsideChanged, fgCoversDeclared, fgCond := false, false, false, ""
 	ast.Inspect(bf.Body, func(n ast.Node) bool {
 		is, ok := n.(*ast.IfStmt)
 		if !ok {
@@ -385,13 +385,30 @@ func main() {
 				}
 			}
 		}
-		if id, ok := is.Cond.(*ast.Ident); ok && id.Name == "changed" && containsCall(bs, is.Body, "calculateAndCheckRuleHash") {
-			fgInsideChanged = true
+		// the filegroup branch: the innermost `if` (without init) around its calculateAndCheckRuleHash call
+		if is.Init == nil && containsCall(bs, is.Body, "calculateAndCheckRuleHash") && !containsCall(bs, is.Body, "buildFilegroup") &&
+			!containsCall(bs, is.Body, "moveOutputs") {
+			cond := strings.ReplaceAll(bs.Src(is.Cond), " ", "")
+			if id, ok := is.Cond.(*ast.Ident); ok && id.Name == "changed" {
+				fgInsideChanged = true
+			}
+			fgCond = cond
+			// `changed || len(target.Hashes) > 0` (either order): every target that declares hashes is checked
+			if be, ok := is.Cond.(*ast.BinaryExpr); ok && be.Op == token.LOR {
+				for _, side := range []ast.Expr{be.X, be.Y} {
+					c := strings.ReplaceAll(bs.Src(side), " ", "")
+					if c == "len(target.Hashes)>0" || c == "len(target.Hashes)!=0" {
+						fgCoversDeclared = true
+					}
+				}
+			}
 		}
 		return true
 	})
 	out.Def("buildCheckErrReturns", "Bool", xlib.LeanBool(checkErrReturns))
 	out.Def("fgCheckInsideChanged", "Bool", xlib.LeanBool(fgInsideChanged))
+	out.Def("fgCheckCond", "String", xlib.LeanStr(fgCond))
+	out.Def("fgCheckCoversDeclared", "Bool", xlib.LeanBool(fgCoversDeclared))
 	// storeInCache must not sit in a defer / before the check: position of the first top-level statement containing it
 	idxCheck, idxStore, idxMove := -1, -1, -1
 	for i, top := range bf.Body.List {
@@ -525,6 +542,38 @@ func main() {
 		return true
 	})
 	out.Def("ruleHashCoversHashes", "Bool", xlib.LeanBool(ruleCoversHashes))
+	// the checkers are written into the rule hash of (at least) every target that declares hashes: a range over
+	// …Build.HashCheckers with a Write in its body, either unconditional or under `len(target.Hashes) > 0` / `!= 0`
+	ruleCoversCheckers := false
+	var walk func(n ast.Node, guarded bool)
+	walk = func(n ast.Node, guardOK bool) {
+		ast.Inspect(n, func(x ast.Node) bool {
+			switch y := x.(type) {
+			case *ast.IfStmt:
+				c := strings.ReplaceAll(inc.Src(y.Cond), " ", "")
+				ok := guardOK && (c == "len(target.Hashes)>0" || c == "len(target.Hashes)!=0")
+				walk(y.Body, ok)
+				return false
+			case *ast.RangeStmt:
+				if guardOK && strings.HasSuffix(inc.Src(y.X), "Build.HashCheckers") && containsCall(inc, y.Body, "Write") {
+					ruleCoversCheckers = true
+				}
+			}
+			return true
+		})
+	}
+	for _, st := range rh.Body.List { // top-level statements only: not inside `if runtime` or other conditions
+		switch y := st.(type) {
+		case *ast.IfStmt:
+			c := strings.ReplaceAll(inc.Src(y.Cond), " ", "")
+			if c == "len(target.Hashes)>0" || c == "len(target.Hashes)!=0" {
+				walk(y.Body, true)
+			}
+		case *ast.RangeStmt:
+			walk(y, true)
+		}
+	}
+	out.Def("ruleHashCoversHashCheckers", "Bool", xlib.LeanBool(ruleCoversCheckers))
 	out.Write()
 }
 
